@@ -12,6 +12,8 @@ ID = "C06"
 RULE = ("Tables of <= 12 rows (x: dyadic floats k/4 with optional NaN, y: small ints, g: key in "
         "0..3 as int or str) are split at a generated sorted multiset of cut positions (repeats = "
         "empty batches, including the first and consecutive ones); an expression is generated: "
+        "optional in-place assignment first (sdf['x'] = old accessor * 2, sdf[['y','x']] = "
+        "sdf[['x','y']] * 2, sdf['y'] = scalar), attribute or item access to columns, "
         "column selection, optional arithmetic (+c, *c), optional boolean filter sdf[sdf.x > c] "
         "(may empty a batch), optional assign, then one aggregation from sum/count/size/mean/"
         "value_counts or groupby(column name | streaming series | g % 2).{sum,count,size,mean,"
